@@ -35,9 +35,10 @@ Qed.
 
 Lemma rewrite_bed4 t :
   Forall (fun r => bed_name_ok (fst (fst (fst r))) = true) t ->
+  Forall (fun r => bed_gene_ok r = true) t ->
   option_map write_bed4 (read_bed4 (write_bed4 t)) = Some (write_bed4 (sort_rows t)).
 Proof.
-  intros H. rewrite roundtrip_bed4 by assumption. cbn [option_map]. f_equal.
+  intros H HG. rewrite roundtrip_bed4 by assumption. cbn [option_map]. f_equal.
   unfold write_bed4. apply write_after_norm; intros [[[c s] e] ex]; reflexivity.
 Qed.
 
